@@ -1024,9 +1024,11 @@ def run(chk):
                          {"function": kind, "shape": list(X.shape), "tensor": np.asarray(X), "rank": rank, "options": {k: str(v_) for k, v_ in extra.items()}, "impl_outcome": st})
     # ---- predicate cases (larger; search / test part, toleranced) ---------------------------
     extra_budget = 3 if (failing or chk.broken) else 1     # widen the search around a broken correspondence
+    n_pred = 0
     for rep in range(extra_budget):
         for (kind, X, rank, extra, info) in gen_predicate_cases(tier, rng, nrng):
-            via_class = rng.random() < 0.15      # the class entry points of the same modules
+            n_pred += 1
+            via_class = rng.random() < 0.15 or n_pred % 5 == 0      # the class entry points of the same modules
             rank_call = rank
             if kind in ("tt", "tucker") and rng.random() < 0.08:
                 # fractional / 'same' rank requests: the request is what validate_*_rank makes of it (computed by the implementation's
